@@ -97,7 +97,7 @@ def configs(tier):
                     continue
                 bound = 1
             elif tier == "quick":
-                bound = 2 if W == 2 else 1
+                bound = 2 if (W == 2 and i < 6) else 1
             else:
                 bound = 3 if W == 2 else 2
             out.append({"dc": dc, "W": W, "bound": bound})
